@@ -356,9 +356,20 @@ func fieldName(t types.Type, idx int) string {
 		t = p.Elem()
 	}
 	if s, ok := t.Underlying().(*types.Struct); ok && idx < s.NumFields() {
-		return s.Field(idx).Name()
+		return fieldCanon(s.Field(idx))
 	}
 	return fmt.Sprintf("f%d", idx)
+}
+
+// fieldAlias: unexported struct fields of anchor types that were renamed, with the name the rules know them by.
+var fieldAlias = map[*types.Var]string{}
+
+// fieldCanon is the field's name, or its recorded name when the field of an anchor type was renamed.
+func fieldCanon(f *types.Var) string {
+	if a, ok := fieldAlias[f]; ok {
+		return a
+	}
+	return f.Name()
 }
 
 func fieldVar(t types.Type, idx int) *types.Var {
@@ -544,15 +555,15 @@ func funcName(f *ssa.Function) string {
 		return "<nil>"
 	}
 	if recv := f.Signature.Recv(); recv != nil {
-		return "(" + types.TypeString(recv.Type(), shortQual) + ")." + f.Name()
+		return "(" + types.TypeString(recv.Type(), shortQual) + ")." + fnName(f)
 	}
 	if f.Parent() != nil {
 		return funcName(f.Parent()) + "$" + strings.TrimPrefix(f.Name(), f.Parent().Name()+"$")
 	}
 	if f.Pkg != nil {
-		return f.Pkg.Pkg.Name() + "." + f.Name()
+		return f.Pkg.Pkg.Name() + "." + fnName(f)
 	}
-	return f.Name()
+	return fnName(f)
 }
 
 func (t *termer) callTerm(cc *ssa.CallCommon) string {
@@ -763,7 +774,6 @@ func resultValues(r *ssa.Return) []ssa.Value {
 	return out
 }
 
-
 // isPure: fn (a module function with a body) only reads: no store other than to its own locals, no map update or
 // delete, no send, go, defer or panic, and every call it makes is to a pure module function, a builtin len/cap, or a
 // standard-library function from a small list of value-only helpers. Conservative: anything unknown is impure.
@@ -813,4 +823,161 @@ func (c *Ctx) isPure(fn *ssa.Function, seen map[*ssa.Function]bool) bool {
 		}
 	})
 	return pure
+}
+
+// tableFieldValues: if v is read from an element (or a field of an element) of a package-level slice/array variable
+// that is only ever assigned its composite-literal initialiser, the values the initialiser stores at that position
+// for every element; otherwise nil. This is how table-driven code (keyword tables, symbol tables) is read.
+func (c *Ctx) tableFieldValues(v ssa.Value) []ssa.Value {
+	field := -1
+	var elem ssa.Value
+	switch x := v.(type) {
+	case *ssa.Field:
+		field, elem = x.Field, x.X
+	case *ssa.UnOp:
+		if x.Op != token.MUL {
+			return nil
+		}
+		if fa, ok := x.X.(*ssa.FieldAddr); ok {
+			field = fa.Field
+			elem = fa.X // *elem
+			if ia, ok := elem.(*ssa.IndexAddr); ok {
+				return c.tableInit(ia, field)
+			}
+			// the range variable copied into a local: sst := table[i]; sst.f
+			if al, ok := elem.(*ssa.Alloc); ok {
+				if sv := singleStore(al); sv != nil {
+					elem = sv
+					break
+				}
+			}
+			return nil
+		}
+		elem = v
+	default:
+		return nil
+	}
+	// elem is a loaded element: *(&table[i])
+	u, ok := elem.(*ssa.UnOp)
+	if !ok || u.Op != token.MUL {
+		return nil
+	}
+	ia, ok := u.X.(*ssa.IndexAddr)
+	if !ok {
+		return nil
+	}
+	return c.tableInit(ia, field)
+}
+
+func (c *Ctx) tableInit(ia *ssa.IndexAddr, field int) []ssa.Value {
+	var g *ssa.Global
+	switch x := ia.X.(type) {
+	case *ssa.UnOp:
+		if x.Op == token.MUL {
+			g, _ = x.X.(*ssa.Global)
+		}
+	case *ssa.Global:
+		g = x
+	}
+	if g == nil || g.Pkg == nil || !strings.HasPrefix(g.Pkg.Pkg.Path(), modPath) {
+		return nil
+	}
+	// the variable is written only by the package initialiser
+	var initStore *ssa.Store
+	other := false
+	for _, fn := range c.srcFuncs() {
+		allInstrs(fn, func(in ssa.Instruction) {
+			st, ok := in.(*ssa.Store)
+			if !ok || st.Addr != ssa.Value(g) {
+				return
+			}
+			if fn.Name() == "init" && fn.Parent() == nil {
+				initStore = st
+			} else {
+				other = true
+			}
+		})
+	}
+	if initFn := g.Pkg.Func("init"); initFn != nil && initStore == nil {
+		allInstrs(initFn, func(in ssa.Instruction) {
+			if st, ok := in.(*ssa.Store); ok && st.Addr == ssa.Value(g) {
+				initStore = st
+			}
+		})
+	}
+	if other || initStore == nil {
+		return nil
+	}
+	var arr *ssa.Alloc
+	switch x := initStore.Val.(type) {
+	case *ssa.Slice:
+		arr, _ = x.X.(*ssa.Alloc)
+	}
+	if arr == nil {
+		return nil
+	}
+	var out []ssa.Value
+	for _, r := range *arr.Referrers() {
+		eia, ok := r.(*ssa.IndexAddr)
+		if !ok {
+			continue
+		}
+		for _, r2 := range *eia.Referrers() {
+			switch y := r2.(type) {
+			case *ssa.FieldAddr:
+				if y.Field != field {
+					continue
+				}
+				for _, r3 := range *y.Referrers() {
+					if st, ok := r3.(*ssa.Store); ok && st.Addr == ssa.Value(y) {
+						out = append(out, st.Val)
+					}
+				}
+			case *ssa.Store:
+				if y.Addr != ssa.Value(eia) {
+					continue
+				}
+				if field < 0 {
+					out = append(out, y.Val)
+					continue
+				}
+				// the element was built in a local composite literal and copied in whole
+				if u, ok := y.Val.(*ssa.UnOp); ok && u.Op == token.MUL {
+					if lit, ok := u.X.(*ssa.Alloc); ok {
+						for _, lr := range *lit.Referrers() {
+							if fa, ok := lr.(*ssa.FieldAddr); ok && fa.Field == field {
+								for _, r3 := range *fa.Referrers() {
+									if st, ok := r3.(*ssa.Store); ok && st.Addr == ssa.Value(fa) {
+										out = append(out, st.Val)
+									}
+								}
+							}
+						}
+					}
+				}
+			}
+		}
+	}
+	return out
+}
+
+// constIntsOf: v as a constant integer, or — when v is read from an initialised package-level table — every constant
+// the table holds at that position (ok only if all of them are constants).
+func (c *Ctx) constIntsOf(v ssa.Value) ([]int64, bool) {
+	if k, ok := constInt(v); ok {
+		return []int64{k}, true
+	}
+	vals := c.tableFieldValues(v)
+	if len(vals) == 0 {
+		return nil, false
+	}
+	var out []int64
+	for _, tv := range vals {
+		k, ok := constInt(tv)
+		if !ok {
+			return nil, false
+		}
+		out = append(out, k)
+	}
+	return out, true
 }
